@@ -248,29 +248,43 @@ impl RBig {
             Sign::Negative => (Repr::neg_one(), Repr::zero()),
         };
 
-        // the Farey neighbors can be found directly by adding the
-        // numerator and denominator together, see <https://en.wikipedia.org/wiki/Farey_sequence#Farey_neighbours>.
+        // The Farey neighbors can be found by repeatedly taking the mediant of the bounds (adding the
+        // numerators and the denominators), see <https://en.wikipedia.org/wiki/Farey_sequence#Farey_neighbours>.
+        // Consecutive steps that move the same bound are merged into one (like the steps of the
+        // Euclidean algorithm), otherwise the number of iterations would be proportional to the limit.
+        let (x_num, x_den) = (x.numerator(), IBig::from(x.denominator().clone()));
         loop {
             #[cfg(dashu_verif)]
             dashu_base::verif::tick(dashu_base::verif::LOOP_FAREY);
-            let mut next = Repr {
-                numerator: &left.numerator + &right.numerator,
-                denominator: &left.denominator + &right.denominator,
-            };
 
-            // test if the denominator has exceeded the limit
-            if &next.denominator > limit {
-                next = next.reduce();
-                if &next.denominator > limit {
-                    return (Self(left), Self(right));
-                }
+            // test if the denominator of the mediant exceeds the limit
+            let next_den = &left.denominator + &right.denominator;
+            if &next_den > limit {
+                return (Self(left), Self(right));
             }
+            let next_num = &left.numerator + &right.numerator;
+
+            // the distances from x to the bounds, as numerators over the common denominator
+            let dist_left = x_num * IBig::from(left.denominator.clone()) - &left.numerator * &x_den; // >= 0
+            let dist_right = &right.numerator * &x_den - x_num * IBig::from(right.denominator.clone()); // > 0
 
             // tighten the bounds
-            if next > x.0 {
-                right = next;
+            if &next_num * &x_den > x_num * IBig::from(next_den) {
+                // mediant > x: replace the right bound by right + k * left, with the largest k such
+                // that it still exceeds x and its denominator is within the limit
+                let mut k = (limit - &right.denominator) / &left.denominator;
+                if !dist_left.is_zero() {
+                    let k_x: UBig = ((dist_right - IBig::ONE) / dist_left).try_into().unwrap();
+                    k = k.min(k_x);
+                }
+                right.numerator += IBig::from(k.clone()) * &left.numerator;
+                right.denominator += k * &left.denominator;
             } else {
-                left = next;
+                // mediant <= x: replace the left bound by left + k * right analogously
+                let k_x: UBig = (dist_left / dist_right).try_into().unwrap();
+                let k = ((limit - &left.denominator) / &right.denominator).min(k_x);
+                left.numerator += IBig::from(k.clone()) * &right.numerator;
+                left.denominator += k * &right.denominator;
             }
         }
     }
